@@ -233,6 +233,11 @@ func (m *Module) start(reports chan *report) {
 			m.Lock()
 			m.status = StatusOffline
 			m.Unlock()
+			// The module will not come online: signal this like after a stop,
+			// or tasks of this module would wait for the start to complete
+			// forever - within the task queue, blocking the tasks of all modules.
+			m.stopFlag.Set()
+			m.cancelCtx()
 			m.Error(
 				fmt.Sprintf("%s:start-failed", m.Name),
 				fmt.Sprintf("Starting module %s failed", m.Name),
